@@ -584,12 +584,14 @@ def nested_with(outer_decorator: bool, deep: bool, inner_flag: int, inner_code: 
 
 # ------------------------------------------------------------------------------------------------ generators
 def generator(n_yields: int, commit_mask: int, raise_at: int, raise_code: int, action: int, action_at: int,
-              aform: bool) -> bool:
+              aform: bool, cleanup_writes: bool) -> bool:
     """@db_session generator with `n_yields` yields.  Segment s (the code between yield s-1 and yield s) writes row s;
     bit s of commit_mask: the segment calls commit() before yielding; `raise_at` == s: segment s raises `raise_code`
     after writing.  Consumer: action 0 = just next(); 1 = send a value; 2 = throw EO into the suspended generator at
     step `action_at`; 3 = close() it at step `action_at`; 4 = the consumer itself is inside a db_session at step
-    `action_at` (refused by pony, generator body does not advance).
+    `action_at` (refused by pony, generator body does not advance).  `cleanup_writes`: the body's `finally:` around each
+    yield writes row 90 when the generator is closed or thrown into while suspended - such clean-up writes belong to a
+    session that did not succeed and must not be committed.
 
     pre: 0 <= n_yields <= G_Y
     pre: 0 <= commit_mask < 2 ** G_Y
@@ -612,7 +614,12 @@ def generator(n_yields: int, commit_mask: int, raise_at: int, raise_code: int, a
             if s == raise_at: throw_code(raise_code, s, raised)
             if s < n_yields:
                 if commit_mask >> s & 1: core.commit()
-                x = yield (tag, s)
+                resumed = False
+                try:
+                    x = yield (tag, s)
+                    resumed = True
+                finally:
+                    if cleanup_writes and not resumed: write(90)
                 got.append(x)
 
     g = sess(body)
@@ -688,6 +695,12 @@ def generator(n_yields: int, commit_mask: int, raise_at: int, raise_code: int, a
         except StopIteration: pass
         except Exception: good = False
         good = good and conn.committed == final_rows and clean_after(held)
+    # leave no suspended generator behind: its `finally:` would otherwise run whenever the collector gets to it
+    cw = cleanup_writes
+    cleanup_writes = False
+    try: it.close()
+    except Exception: pass
+    del it, g
     return ok(good)
 
 
